@@ -143,21 +143,7 @@ vp_live_total(void) {
   return t;
 }
 
-/* VP_OS<k>: set of operations allowed at step k (bit i = VP_OP_* i; 31 = all).
-   Excluded operations are removed from the program of that step. */
-#ifndef VP_OS0
-#define VP_OS0 31
-#endif
-#ifndef VP_OS1
-#define VP_OS1 31
-#endif
-#ifndef VP_OS2
-#define VP_OS2 31
-#endif
-#ifndef VP_OS3
-#define VP_OS3 31
-#endif
-static const int vp_os[8] = { VP_OS0, VP_OS1, VP_OS2, VP_OS3, 31, 31, 31, 31 };
+#include "C07/ops.h"
 
 static void
 vp_check(void) {
@@ -319,11 +305,15 @@ harness(void) {
     }
 
     if (vp_cur >= 0) {
-#if VP_TOTAL >= 2
+#if VP_TOTAL >= 2 && VP_K >= 2 && VP_LAST_NEXT
       if (op == VP_OP_NEXT) VP_WITNESS("next-valid");
+#endif
+#if VP_TOTAL >= 2 && VP_K >= 2 && VP_LAST_PREV
       if (op == VP_OP_PREV) VP_WITNESS("prev-valid");
 #endif
+#if VP_TOTAL >= 1 && VP_LAST_SEEK
       if (op == VP_OP_SEEK) VP_WITNESS("seek-valid");
+#endif
     } else {
       VP_WITNESS("ends-invalid");
     }
@@ -331,10 +321,10 @@ harness(void) {
 #if VP_HAS_EMPTY
     if (vp_creations - before >= 2) VP_WITNESS("one-op-opened-two-blocks");
 #endif
-#if VP_S0 == 0 && VP_TOTAL > 0
+#if VP_S0 == 0 && VP_TOTAL > 0 && VP_LAST_FIRST
     if (vp_creations - before >= 2 && op == VP_OP_FIRST && vp_cur >= 0) VP_WITNESS("forward-skip-over-empty-block");
 #endif
-#if VP_SLAST == 0 && VP_TOTAL > 0
+#if VP_SLAST == 0 && VP_TOTAL > 0 && VP_LAST_LAST
     if (vp_creations - before >= 2 && op == VP_OP_LAST && vp_cur >= 0) VP_WITNESS("backward-skip-over-empty-block");
 #endif
     if (vp_any_error && vp_I.status == LDB_OK)
